@@ -285,7 +285,7 @@ Section UnitBodyGen.
         destruct (node_step_recipes fo st (last pre pc) (bn_name b) _ st1 io ic Est Eio Eic Elt)
           as (n & bo0 & bo1 & a' & br & ba & rc0 & En & Ea2 & Eop & Eba & Ebr & Erc).
         rewrite Hop in Eop. injection Eop as <- <- <-. rewrite Ea in Ea2. injection Ea2 as <-.
-        pose proof (nmon_n _ _ _ _ _ _ _ En (nmon_lin fo (blin first b) k Hokb Hk)) as Enn. subst n. cbn [blin l_mult] in Erc.
+        pose proof (nmon_n _ _ _ _ _ _ _ En (nmon_lin fo (blin first b) k Hokb (cont_stopper k Hk))) as Enn. subst n. cbn [blin l_mult] in Erc.
         rewrite rev_app_distr in Erc. cbn [rev app] in Erc. rewrite (rec_append_app _ _ _ _ Habs), Epb in Erc.
         set (x1 := {| m_g := g2; m_next := nx; m_prev := Some p'; m_pend := oord (bn_bond b);
                       m_stack := (if first then Some p :: m_stack x else m_stack x); m_rings := m_rings x |}) in *.
